@@ -256,7 +256,7 @@ pub fn check(ctx: &Ctx) -> Check {
     let parts: Vec<Box<dyn Part>> = vec![Box::new(RandomPart {
         name: "option-subsets",
         rule: "spectra with 1..4 axes (integer / real / sparse values, 4% with zero total) x all 2^4 option subsets x an admissible marginalization set (as -m or -M, any naming order) and projection target (as --project-shape or -p, in the post-marginalization axes) x final output {text at precision 0..17, npy}: (i) the same options applied one per `view` invocation in the documented order, stages connected losslessly with -O npy, must give byte-identical final output; (ii) every cell within tolerance of the harness's model applied in the order marginalize > project > mask > normalize; (iii) mask alone zeroes exactly the first and last cell; (iv) normalize alone sums to one and preserves ratios; (v) no options reproduces the input to the printed precision; non-trivial = >=2 options including a non-commuting pair (mask+normalize, mask+project, marginalize+project with unequal axes); the 16 subsets are listed as labels",
-        cases: ctx.tier.pick(3000, 30_000),
+        cases: ctx.tier.pick(3000, 100_000),
         strategy: Box::new(|| strategy().boxed()),
         eval: Box::new(eval),
     })];
